@@ -85,6 +85,11 @@ class OMPTaskTrans(ParallelLoopTrans):
                 "containing a code block")
 
         super().validate(node, options)
+        # The collapse option is not supported (see _directive()). Reject it
+        # here, before apply() detaches the node from the tree.
+        if options and options.get("collapse", None) is not None:
+            raise TransformationError("Collapse attribute should not be set "
+                                      "for OMPTaskTrans")
         # Check we can apply all the required transformations on any sub
         # nodes
         root_ancestor = node.root
